@@ -375,11 +375,18 @@ class ScalarEval(AbsInt):
         return ("opaque", f"{name}()")
 
     def call_external(self, dotted, node, args, kwargs, ctx):
-        if dotted == "functools.reduce" and len(node.args) >= 2 and isinstance(node.args[0], ast.Lambda):
+        if dotted == "functools.reduce" and len(node.args) >= 2:
+            # the folded operation: `lambda a, b: a * b` / `a + b`, or operator.mul / operator.add
             lam = node.args[0]
-            if isinstance(lam.body, ast.BinOp) and len(lam.args.args) == 2:
-                v = args[1]
+            kind = None
+            if isinstance(lam, ast.Lambda) and isinstance(lam.body, ast.BinOp) and len(lam.args.args) == 2 and {lam.args.args[0].arg, lam.args.args[1].arg} == {
+                    x.id for x in (lam.body.left, lam.body.right) if isinstance(x, ast.Name)}:
                 kind = {ast.Mult: "fprod", ast.Add: "fsum"}.get(type(lam.body.op))
+            elif isinstance(lam, (ast.Attribute, ast.Name)):
+                r = self.idx.resolve_expr(ctx.fi.module, lam, ctx.fi) if ctx is not None and ctx.fi is not None else None
+                kind = {"operator.mul": "fprod", "operator.add": "fsum"}.get(r.val if r is not None and r.kind == "external" else None)
+            if kind:
+                v = args[1]
                 if kind and v[0] == "famlist":
                     return (kind, v[1])
                 if kind and v[0] == "list":
